@@ -586,11 +586,7 @@ fn build_l0_index(words: &[u64], len: usize, num_words: usize) -> (Vec<i8>, Vec<
     let mut l0_word_excess = Vec::with_capacity(num_words);
 
     // Process all full words with unrolled optimization
-    let full_words = if len % 64 == 0 {
-        num_words
-    } else {
-        num_words - 1
-    };
+    let full_words = (len / 64).min(num_words);
 
     for &word in words.iter().take(full_words) {
         let (min_e, total_e) = word_min_excess_unrolled(word);
@@ -598,12 +594,18 @@ fn build_l0_index(words: &[u64], len: usize, num_words: usize) -> (Vec<i8>, Vec<
         l0_word_excess.push(total_e);
     }
 
-    // Handle last partial word with generic code (handles partial bit counts)
-    if full_words < num_words {
+    // Handle the partial word (the one holding bit len-1) with generic code
+    if full_words < num_words && len % 64 != 0 {
         let valid_bits = len % 64;
-        let (min_e, total_e) = word_min_excess(words[num_words - 1], valid_bits);
+        let (min_e, total_e) = word_min_excess(words[full_words], valid_bits);
         l0_min_excess.push(min_e);
         l0_word_excess.push(total_e);
+    }
+
+    // Words that start at or past `len` hold no valid bit
+    while l0_min_excess.len() < num_words {
+        l0_min_excess.push(0);
+        l0_word_excess.push(0);
     }
 
     (l0_min_excess, l0_word_excess)
@@ -1367,6 +1369,9 @@ pub fn find_close(words: &[u64], len: usize, p: usize) -> Option<usize> {
     // Scan subsequent words
     for (i, &word) in words[word_idx + 1..].iter().enumerate() {
         let actual_word_idx = word_idx + 1 + i;
+        if actual_word_idx * 64 >= len {
+            break;
+        }
         let word_bits = if actual_word_idx * 64 + 64 <= len {
             64
         } else {
@@ -1956,7 +1961,8 @@ fn build_bp_index(
     // word is the last word overall, so strays could only ever leak into
     // cumulative_rank, fixed here.
     let tail_bits = len % 64;
-    let last_word_idx = num_words - 1;
+    let used_words = len.div_ceil(64);
+    let last_word_idx = used_words - 1;
 
     for block_idx in 0..num_rank_blocks {
         let block_start = block_idx * WORDS_PER_RANK_BLOCK;
@@ -1977,6 +1983,9 @@ fn build_bp_index(
             let mut word = words[word_idx];
             if word_idx == last_word_idx && tail_bits != 0 {
                 word &= (1u64 << tail_bits) - 1;
+            }
+            if word_idx >= used_words {
+                word = 0;
             }
             block_cumulative += word.count_ones() as u16;
         }
@@ -2001,10 +2010,14 @@ fn build_bp_index(
 /// Clear bits at or above `len` in the final word (same canonicalization as
 /// `BitVec::with_config`), so stray 1-bits cannot skew counting (#188).
 fn mask_final_word_in_place(words: &mut [u64], len: usize) {
+    let used_words = len.div_ceil(64);
     if len % 64 != 0 {
-        if let Some(last) = words.last_mut() {
+        if let Some(last) = words.get_mut(used_words - 1) {
             *last &= (1u64 << (len % 64)) - 1;
         }
+    }
+    for word in words.iter_mut().skip(used_words) {
+        *word = 0;
     }
 }
 
